@@ -261,6 +261,8 @@ def st_If(ex, node, st):
         narrowed = _narrowing(ex, node.test, s)
         s1 = s.fork().assume(t)
         s2 = s.fork().assume(z3.Not(t))
+        s1.notes.append(f"L{node.lineno}+")
+        s2.notes.append(f"L{node.lineno}-")
         if ex.feasible(s1):
             for name, ty in narrowed.get(True, {}).items():
                 v = s1.env.get(name)
@@ -546,6 +548,11 @@ def st_For(ex, node, st):
         # 1. invariant holds on entry (i = 0)
         s.env["_i"] = IVal(0)
         s.env["_seq"] = view
+        s.env[f"_i{idx}"] = IVal(0)
+        s.env[f"_seq{idx}"] = view
+        if view.keys is not None:
+            s.env["_keys"] = view.keys
+            s.env[f"_keys{idx}"] = view.keys
         for k, inv in enumerate(invs):
             g = ex.eval_clause(inv, s)
             ex.oblige(f"{lname}.inv{k}.init", "inv-init", s, g, {"clause": inv}, aux=True)
@@ -555,6 +562,10 @@ def st_For(ex, node, st):
         hs.env["_i"] = IVal(i)
         hs.env[f"_i{idx}"] = IVal(i)
         hs.env["_seq"] = view
+        hs.env[f"_seq{idx}"] = view
+        if view.keys is not None:
+            hs.env["_keys"] = view.keys
+            hs.env[f"_keys{idx}"] = view.keys
         hs.assume(0 <= i, i <= view.len)
         for inv in invs:
             hs.assume(ex.eval_clause_assume(inv, hs))
@@ -568,6 +579,7 @@ def st_For(ex, node, st):
                 if out.kind in (NORMAL, "continue"):
                     s2.env["_i"] = IVal(i + 1)
                     s2.env["_seq"] = view
+                    s2.env[f"_i{idx}"] = IVal(i + 1)
                     for k, inv in enumerate(invs):
                         g = ex.eval_clause(inv, s2)
                         ex.oblige(f"{lname}.inv{k}.preserved", "inv-pres", s2, g, {"clause": inv}, aux=True)
